@@ -440,6 +440,19 @@ pub fn c08_units(seed: u64, thorough: bool) -> Vec<Unit> {
         // duplicates
         ("duplicate:sanitizer-trim", s_, "sanitize(trim, trim)", "pub struct T(String);", Reject, "Duplicated sanitizer"),
         ("duplicate:sanitizer-with", i32_, "sanitize(with = |x| x, with = |x| x + 1)", "pub struct T(i32);", Reject, "Duplicated sanitizer"),
+        // the same item twice with other items in between
+        ("duplicate:sanitizer-trim-nonadjacent", s_, "sanitize(trim, lowercase, trim)", "pub struct T(String);", Reject, "Duplicated sanitizer"),
+        ("duplicate:sanitizer-case-nonadjacent", s_, "sanitize(uppercase, trim, with = |s| s, uppercase)", "pub struct T(String);", Reject, "Duplicated sanitizer"),
+        ("duplicate:sanitizer-with-nonadjacent", s_, "sanitize(with = |s| s, trim, with = |s: String| s)", "pub struct T(String);", Reject, "Duplicated sanitizer"),
+        ("duplicate:sanitizer-trim-first-last", s_, "sanitize(trim, lowercase, with = |s| s, trim)", "pub struct T(String);", Reject, "Duplicated sanitizer"),
+        ("duplicate:validator-less-nonadjacent", i32_, "validate(less = 5, greater = 1, less = 6)", "pub struct T(i32);", Reject, ""),
+        ("duplicate:validator-not_empty-nonadjacent", s_, "validate(not_empty, len_char_max = 5, not_empty)", "pub struct T(String);", Reject, ""),
+        ("duplicate:validator-predicate-nonadjacent", s_, "validate(predicate = |s| s.len() > 1, len_char_min = 1, predicate = |s| s.len() < 9)", "pub struct T(String);", Reject, ""),
+        ("duplicate:validator-finite-nonadjacent", f64_, "validate(finite, less = 1.0, finite)", "pub struct T(f64);", Reject, ""),
+        ("duplicate:validator-len-nonadjacent", s_, "validate(len_char_max = 5, not_empty, len_char_max = 6)", "pub struct T(String);", Reject, ""),
+        // a trait listed twice changes nothing about the guarantee (the macro keeps a set): no opinion
+        ("duplicate:derive-nonadjacent", i32_, "derive(Debug, Clone, Debug)", "pub struct T(i32);", NoOpinion, ""),
+        ("duplicate:derive-adjacent", i32_, "derive(Clone, Clone)", "pub struct T(i32);", NoOpinion, ""),
         ("duplicate:validator-less", i32_, "validate(less = 5, less = 6)", "pub struct T(i32);", Reject, "Duplicated validator"),
         ("duplicate:validator-len", s_, "validate(len_char_max = 5, len_char_max = 6)", "pub struct T(String);", Reject, "Duplicated validator"),
         ("duplicate:validator-finite", f64_, "validate(finite, finite)", "pub struct T(f64);", Reject, "Duplicated validator"),
